@@ -483,6 +483,7 @@ class ZorgFileCompiler(ZorgFileListener):
                 body.split(l1_bullet_prefix)
                 # TODO(bugyi): Check if this optimization is necessary
                 if any(val in body for val in [":: ", "::\n"])
+                or body.endswith("::")
                 else []
             )
             if any(
